@@ -25,4 +25,6 @@ VARIANTS = [
     V('benign-jacobianlink-full-row-slice', A, ("t_js = fmr.JacobianSpace(self.screw_list[0:6, 0:i+1], theta[0:i+1])", "t_js = fmr.JacobianSpace(self.screw_list[:, 0:i+1], theta[0:i+1])"), 'silent'),
     V('ikinspace-norm-of-two-element-view', M, ("err = Norm([Vs[0], Vs[1], Vs[2]]) > eomg or Norm([Vs[3], Vs[4], Vs[5]]) > ev\n    while err and i < max_iters:", "err = Norm(Vs[0:3]) > eomg or Norm(Vs[3:5]) > ev\n    while err and i < max_iters:"), 'fire', 'R17.1'),
     V('benign-ikinspace-norm-of-three-element-view', M, ("err = Norm([Vs[0], Vs[1], Vs[2]]) > eomg or Norm([Vs[3], Vs[4], Vs[5]]) > ev\n    while err and i < max_iters:", "err = Norm(Vs[0:3]) > eomg or Norm(Vs[3:6]) > ev\n    while err and i < max_iters:"), 'silent'),
+    V('fkinspace-driven-by-the-screw-table', M, ('T = SafeCopy(M)\n    for i in range(len(thetalist) - 1, -1, -1):', 'T = SafeCopy(M)\n    for i in range(Slist.shape[1] - 1, -1, -1):'), 'fire', 'R17.3'),
+    V('jacobianbody-driven-by-the-screw-table', M, ('for i in range(len(thetalist) - 2, -1, -1):\n        T = np.dot(T,MatrixExp6(VecTose3(Blist[:, i + 1] \\\n                                         * -thetalist[i + 1])))', 'for i in range(Blist.shape[1] - 2, -1, -1):\n        T = np.dot(T,MatrixExp6(VecTose3(Blist[:, i + 1] \\\n                                         * -thetalist[i + 1])))'), 'fire', 'R17.3'),
 ]
